@@ -24,7 +24,51 @@ func runC05(r *Run) {
 	r.rule("C05.R6", "opt-in creates / opt-out deletes the value entry; not opted in reads as zero", 3)
 	r.rule("C05.R7", "role-typed address arguments (AVS vs operator) are not swapped at calls with both roles", 12)
 	r.rule("C05.R8", "the recomputed per-operator values are written back by the iterator helper", 1)
-	iteratorWriteBackRule(r, "C05.R8", map[string]bool{"IterateOperatorsForAVS": true})
+	iteratorWriteBackRule(r, "C05.R8", map[string]bool{"IterateOperatorsForAVS": true, "IterateAssetsForOperator": true})
+	// the supported-asset set handed to the valuation is never nil on success: a nil set means "no filter" to
+	// the asset iterator and "nothing supported" to UpdateVotingPower (which then deletes the value records)
+	if gv := w.View("x/avs/keeper", "Keeper.GetAVSSupportedAssets"); gv == nil {
+		r.bad("C05.R3", "anchor|GetAVSSupportedAssets", "-", "anchor", "not found")
+	} else {
+		okAll, n := true, 0
+		ast.Inspect(gv.Decl.Body, func(nd ast.Node) bool {
+			rs, isRet := nd.(*ast.ReturnStmt)
+			if !isRet || len(rs.Results) != 2 || !isNilIdent(gv.Info, rs.Results[1]) {
+				return true
+			}
+			n++
+			o := gv.objOf(rs.Results[0])
+			good := false
+			if o != nil {
+				defs := gv.defsOf(o)
+				good = len(defs) >= 1
+				for _, d := range defs {
+					if !isFreshContainer(d) {
+						good = false
+					}
+				}
+				// and at least one of the definitions is unconditional (a statement of the function body)
+				uncond := false
+				for _, st := range gv.Decl.Body.List {
+					if as, isAs := st.(*ast.AssignStmt); isAs {
+						for i, l := range as.Lhs {
+							if gv.objOf(l) == o && i < len(as.Rhs) && isFreshContainer(as.Rhs[i]) {
+								uncond = true
+							}
+						}
+					}
+				}
+				good = good && uncond
+			} else if isFreshContainer(rs.Results[0]) {
+				good = true
+			}
+			if !good {
+				okAll = false
+			}
+			return true
+		})
+		r.check(okAll && n >= 1, "C05.R3", "supported-assets|never-nil", gv.pos(gv.Decl), "GetAVSSupportedAssets returns an allocated (possibly empty) set on success", "GetAVSSupportedAssets can return a nil set without an error: the asset iterator reads nil as 'no filter' and UpdateVotingPower reads it as 'no assets' and deletes every operator's value record")
+	}
 	r.rule("C05.R9", "the oracle token of an asset is found by exact match against the elements of the token's asset list", 1)
 	if tv := w.View("x/oracle/types", "Params.GetTokenIDFromAssetID"); tv == nil {
 		r.bad("C05.R9", "anchor|GetTokenIDFromAssetID", "-", "anchor", "not found")
@@ -493,4 +537,15 @@ func (w *World) allViews() []*FnView {
 		return out[i].Decl.Pos() < out[j].Decl.Pos()
 	})
 	return out
+}
+
+// isFreshContainer: make(...) or a composite literal.
+func isFreshContainer(e ast.Expr) bool {
+	switch x := stripParens(e).(type) {
+	case *ast.CompositeLit:
+		return true
+	case *ast.CallExpr:
+		return exprString(x.Fun) == "make"
+	}
+	return false
 }
